@@ -381,6 +381,24 @@ SAN_ENV = {"ASAN_OPTIONS": "detect_leaks=0:abort_on_error=0:allocator_may_return
 
 
 def run_model(exe, mode, lines, timeout=1800):
+    """one answer line per input line from the extracted model / oracle.  Lines are independent of one another (one scenario each), so
+    a large batch is split into shards run side by side -- the extracted code is single-threaded and the thorough tiers hand it
+    10^5 scenarios."""
+    if len(lines) > 4000 and not os.environ.get("VERIF_DEBUG_MODEL"):
+        from concurrent.futures import ThreadPoolExecutor
+        nsh = min(8, max(2, len(lines) // 2000))
+        size = (len(lines) + nsh - 1) // nsh
+        shards = [lines[i:i + size] for i in range(0, len(lines), size)]
+        with ThreadPoolExecutor(len(shards)) as ex:
+            try:
+                parts = list(ex.map(lambda ls: _run_model1(exe, mode, ls, timeout), shards))
+            except subprocess.TimeoutExpired:
+                raise BuildError("model driver did not answer within %d s on a shard of %d lines" % (timeout, size))
+        return [x for part in parts for x in part]
+    return _run_model1(exe, mode, lines, timeout)
+
+
+def _run_model1(exe, mode, lines, timeout=1800):
     if os.environ.get("VERIF_DEBUG_MODEL"):
         run_model.n = getattr(run_model, "n", 0) + 1
         with open("%s.%d" % (os.environ["VERIF_DEBUG_MODEL"], run_model.n), "w") as fh:
